@@ -27,7 +27,9 @@ NOT_DECIDED = ("that every tag/jump is at the same position after a rebuild (ind
 ASSUMPTIONS = ["values reaching id_to_asm_bytecode as PUSH constants are ints in [0,2^256) — decided separately by C03.b"]
 
 REBUILD = "solution_generation.optimize_from_sub_blocks.rebuild_optimized_asm_block"
-ALLOWED_CTOR_MODULES = {"sfs_generator.parser_asm", "solution_generation.ids2asm"}
+# the parser, the id -> item translation, and the stitching (which re-creates a replacement item with the real operand of the input
+# block; what it emits is decided by evaluation in C09.f)
+ALLOWED_CTOR_MODULES = {"sfs_generator.parser_asm", "solution_generation.ids2asm", "solution_generation.optimize_from_sub_blocks"}
 
 
 def rule_a(ctx, out):
@@ -47,50 +49,13 @@ def rule_b(ctx, out):
             if f.module.name in ALLOWED_CTOR_MODULES:
                 out.ok({"constructs_item": f.qual})
             else:
-                out.bad(f"item-constructed-in:{f.qual}", f"{f.qual} constructs an assembly item; only the parser and ids2asm may "
+                out.bad(f"item-constructed-in:{f.qual}", f"{f.qual} constructs an assembly item; only the parser, ids2asm and the stitching may "
                         f"(anything else fabricates code outside the verified path)", where(f, c))
     if sites < 4:
         raise AnalysisError("fewer than 4 AsmBytecode constructions found")
-    # the rebuild: what it appends
+    # (what the rebuild puts into the stitched block is decided by evaluation: C09.f)
     f = ctx.func(REBUILD)
-    prev_block, sub_list, repl = f.params[0], f.params[1], f.params[2]
-    inst_names = {n.targets[0].id for n in own_nodes(f.node) if isinstance(n, ast.Assign) and isinstance(n.targets[0], ast.Name)
-                  and norm(n.value) == f"{prev_block}.instructions"}
-    out_names = set()
-    for n in own_nodes(f.node):
-        if isinstance(n, ast.Assign) and isinstance(n.targets[0], ast.Attribute) and n.targets[0].attr == "instructions" and isinstance(n.value, ast.Name):
-            out_names.add(n.value.id)
-    if not inst_names or not out_names:
-        raise AnalysisError("rebuild_optimized_asm_block: instruction list variables not recognised")
-    n_app = 0
-    for c in calls_in(f.node):
-        if isinstance(c.func, ast.Attribute) and isinstance(c.func.value, ast.Name) and c.func.value.id in out_names \
-                and c.func.attr in ("append", "extend", "insert"):
-            n_app += 1
-            a = c.args[-1]
-            inner = a.args[0] if isinstance(a, ast.Call) and call_name(a) == "deepcopy" and a.args else a
-            if isinstance(inner, ast.Name):
-                # a local that only ever holds an element of the original list
-                from ..core.flow import single_assignments
-                defs = single_assignments(f.node).get(inner.id, [])
-                if defs and all(idx is None and isinstance(v, ast.Subscript) and isinstance(v.value, ast.Name) and v.value.id in inst_names
-                                and not isinstance(v.slice, ast.Slice) for (_, v, idx) in defs):
-                    inner = defs[0][1]
-            if c.func.attr == "append" and isinstance(inner, ast.Subscript) and isinstance(inner.value, ast.Name) and inner.value.id in inst_names:
-                out.ok({"rebuild": short(c), "appends": "original item (or its deep copy)"})
-            elif c.func.attr == "extend" and isinstance(inner, ast.Subscript) and is_name(inner.value, repl):
-                out.ok({"rebuild": short(c), "appends": "accepted replacement sequence"})
-            elif c.func.attr == "extend" and isinstance(inner, ast.Subscript) and isinstance(inner.slice, ast.Slice) and isinstance(inner.value, ast.Name) \
-                    and inner.value.id in inst_names:
-                out.ok({"rebuild": short(c), "appends": "a slice of the original items"})
-            elif c.func.attr == "extend" and isinstance(inner, (ast.ListComp, ast.GeneratorExp)) and isinstance(inner.elt, ast.Subscript) \
-                    and isinstance(inner.elt.value, ast.Name) and inner.elt.value.id in inst_names:
-                out.ok({"rebuild": short(c), "appends": "original items"})
-            else:
-                out.bad(f"rebuild:appends-foreign-object:{short(c, 50)}", "the rebuild appends something that is neither an original item nor an "
-                        "accepted replacement sequence", where(f, c))
-    if n_app < 4:
-        raise AnalysisError("rebuild_optimized_asm_block: fewer than 4 append/extend sites")
+    prev_block = f.params[0]
     # the result block is a deep copy of the original with only `.instructions` replaced
     rets = [r for r in own_nodes(f.node) if isinstance(r, ast.Return)]
     res_names = {r.value.id for r in rets if isinstance(r.value, ast.Name)}
@@ -252,10 +217,154 @@ def rule_e(ctx, out, modules=FRESH_MODULES):
         raise AnalysisError(f"only {n} for-loops scanned in {modules}")
 
 
+def rule_f(ctx, out):
+    """The stitching of a block, decided by abstract evaluation (own interpreter; nothing is imported) on a bounded family of blocks:
+    optional tag/JUMPDEST prefix, 1..3 sub-blocks separated by split instructions, optional terminal jump, every subset of the
+    sub-blocks replaced.  Items are built by the repository's own parser (build_asm_bytecode), replacements by its own asm_from_ids,
+    the block is stitched by rebuild_optimized_asm_block and every item serialised by AsmBytecode.to_json.  The emitted stream must be
+        prefix, then per sub-block (replacement | original items), the split instructions, suffix
+    with original items unchanged in every field, and the operand of every replacement item equal to the *real* operand the input
+    block has for that internal value (a PUSHLIB reference is numbered while the block is parsed; what is serialised must be the
+    library name again)."""
+    import copy
+    from ..core.interp import ModuleInterp
+    from ..core.minieval import Unsupported, Raised
+    cls = ctx.p.cls("sfs_generator.asm_bytecode.AsmBytecode")
+    rb = ctx.func(REBUILD)
+    bb = ctx.func("sfs_generator.parser_asm.build_asm_bytecode")
+    afi = ctx.func("solution_generation.ids2asm.asm_from_ids")
+
+    class Blk:
+        def __init__(self, name, instrs):
+            self.block_name, self.instructions = name, instrs
+    mi = ModuleInterp(ctx, max_steps=400000, extern={"deepcopy": copy.deepcopy}, obj_types=(Blk,))
+    Item = mi.fake_class(cls)
+    mi.extern["AsmBytecode"] = mi.constructor(cls, lambda: Item())
+    mi.module_env("global_params.constants")["push0_enabled"] = False
+
+    def rec(name, value=None, **kw):
+        r = {"begin": 10, "end": 20, "name": name, "source": 1}
+        if value is not None:
+            r["value"] = value
+        r.update(kw)
+        return r
+    LIBS = ["contracts/A.sol:LibA", "contracts/B.sol:LibB", "contracts/C.sol:LibC"]
+    # sub-blocks as assembly records (what the input file holds) and, for each, a replacement as (specification records, id sequence);
+    # in `spec` a PUSHLIB value [j] stands for "the number this block's parse gave to LIBS[j]" (filled in below), `want` is the
+    # (name, operand) stream the replacement must serialise to
+    SUBS = [
+        dict(orig=[rec("PUSHLIB", LIBS[1]), rec("PUSH", "1"), rec("ADD"), rec("PUSHLIB", LIBS[0])],
+             spec=[{"id": "PUSHLIB_0", "disasm": "PUSHLIB", "value": [1]}, {"id": "PUSHLIB_1", "disasm": "PUSHLIB", "value": [0]},
+                   {"id": "PUSH_0", "disasm": "PUSH", "value": [255]}],
+             ids=["PUSHLIB_0", "NOP", "PUSH_0", "PUSHLIB_1", "SWAP1"],
+             want=[("PUSHLIB", LIBS[1]), ("PUSH", "ff"), ("PUSHLIB", LIBS[0]), ("SWAP1", None)]),
+        dict(orig=[rec("PUSH", "2"), rec("PUSHLIB", LIBS[2]), rec("PUSHLIB", LIBS[1]), rec("POP")],
+             spec=[{"id": "PUSHLIB_2", "disasm": "PUSHLIB", "value": [2]}, {"id": "PUSH_1", "disasm": "PUSH", "value": [0]},
+                   {"id": "PUSHTAG_0", "disasm": "PUSH [tag]", "value": [7]}],
+             ids=["PUSHLIB_2", "PUSH_1", "PUSHTAG_0"],
+             want=[("PUSHLIB", LIBS[2]), ("PUSH", "0"), ("PUSH [tag]", "7")]),
+        dict(orig=[rec("DUP1"), rec("PUSHLIB", LIBS[0]), rec("PUSH data", "a1")],
+             spec=[{"id": "PUSHLIB_3", "disasm": "PUSHLIB", "value": [0]}, {"id": "PUSHDATA_0", "disasm": "PUSH data", "value": [161]}],
+             ids=["PUSHDATA_0", "PUSHLIB_3"],
+             want=[("PUSH data", "a1"), ("PUSHLIB", LIBS[0])]),
+    ]
+    SPLITS = [rec("SSTORE"), rec("LOG1")]
+    PREFIX = [rec("tag", "5"), rec("JUMPDEST")]
+    SUFFIX = [rec("PUSH [tag]", "9"), rec("JUMP", None, jumpType="[in]")]
+
+    def run(fn, *a):
+        try:
+            return mi.call(fn, *a)
+        except Raised as e:
+            return ("raises", e.what)
+        except Unsupported as e:
+            raise AnalysisError(f"{fn.name} cannot be evaluated abstractly: {e}")
+    n = 0
+    for k in (1, 2, 3):
+        for mask in range(2 ** k):
+            for with_prefix in (False, True):
+                for with_suffix in (False, True):
+                    # the library numbering of a block is the parser's: first occurrence first; LIBS is arranged so that the order of first
+                    # occurrence in every family member is LibB(0), LibA(1), LibC(2)... computed here from the records themselves
+                    table = {}
+                    records = (PREFIX if with_prefix else [])
+                    bounds = []
+                    for i in range(k):
+                        start = len(records)
+                        records = records + SUBS[i]["orig"]
+                        bounds.append((start, len(records)))
+                        if i < k - 1:
+                            records = records + [SPLITS[i]]
+                    records = records + (SUFFIX if with_suffix else [])
+                    items = [run(bb, dict(r), table) for r in records]
+                    if any(isinstance(x, tuple) for x in items):
+                        raise AnalysisError(f"build_asm_bytecode raises on a record of the family: {[x for x in items if isinstance(x, tuple)][0]}")
+                    plain = [run(cls.methods["to_plain"], it) for it in items]
+                    number = dict(table)          # real value -> internal value, as the parser numbered this block
+                    sub_list, repl, expected = [], {}, [("orig", j) for j in range(bounds[0][0])]
+                    for i in range(k):
+                        lo, hi = bounds[i]
+                        names = plain[lo:hi] + ([plain[hi]] if i < k - 1 else [])
+                        sub_list.append(([plain[lo - 1]] if i > 0 else []) + names)
+                        if mask >> i & 1:
+                            # the specification of the sub-block refers to a library by the number the parser gave it in this block
+                            spec = [dict(r, value=[number[LIBS[r["value"][0]]]]) if r["disasm"] == "PUSHLIB" else dict(r) for r in SUBS[i]["spec"]]
+                            seq = run(afi, {"user_instrs": spec}, list(SUBS[i]["ids"]))
+                            if isinstance(seq, tuple):
+                                out.bad(f"ids-to-items-raises:{seq[1]}", f"asm_from_ids raises {seq[1]} on the id sequence {SUBS[i]['ids']}", where(afi))
+                                return
+                            repl[f"blk_{i}"] = seq
+                            expected += [("new", w) for w in SUBS[i]["want"]]
+                        else:
+                            repl[f"blk_{i}"] = None
+                            expected += [("orig", j) for j in range(lo, hi)]
+                        if i < k - 1:
+                            expected.append(("orig", hi))
+                    expected += [("orig", j) for j in range(bounds[-1][1], len(items))]
+                    res = run(rb, Blk("blk", list(items)), sub_list, repl)
+                    n += 1
+                    label = f"{k} sub-block(s), replaced {[i for i in range(k) if mask >> i & 1]}, prefix {with_prefix}, suffix {with_suffix}"
+                    if isinstance(res, tuple):
+                        out.bad(f"rebuild-raises:{res[1]}", f"rebuild_optimized_asm_block raises {res[1]} on a well-formed block ({label})", where(rb))
+                        continue
+                    foreign = [x for x in res.instructions if not isinstance(x, Item)]
+                    if foreign:
+                        out.bad("rebuild:appends-foreign-object", f"the stitched block contains {foreign[0]!r}, which is not an assembly item ({label})", where(rb))
+                        continue
+                    got = [run(cls.methods["to_json"], it) for it in res.instructions]
+                    want = []
+                    for kind, w in expected:
+                        if kind == "orig":
+                            want.append(records[w])
+                        else:
+                            want.append({"name": w[0], **({"value": w[1]} if w[1] is not None else {})})
+                    ok = len(got) == len(want)
+                    detail = None
+                    if ok:
+                        for g, w, (kind, _) in zip(got, want, expected):
+                            gg = g if kind == "orig" else {x: y for x, y in g.items() if x in ("name", "value")}
+                            if gg != w:
+                                ok, detail = False, (g, w, kind)
+                                break
+                    if ok:
+                        out.ok({"family_member": label, "emitted_items": len(got)})
+                    elif detail is None:
+                        out.bad("rebuild:stream-length", f"the stitched block has {len(got)} items where {len(want)} are due ({label}): "
+                                f"{[g.get('name') for g in got]} instead of {[w.get('name') for w in want]}", where(rb))
+                    else:
+                        g, w, kind = detail
+                        what = "pseudo-push-operand-not-the-real-value" if kind == "new" and g.get("name") == w.get("name") and g.get("name") not in ("PUSH",) \
+                            else "replacement-item" if kind == "new" else "original-item-changed"
+                        out.bad(f"rebuild:{what}:{w.get('name')}", f"the stitched block emits {g!r} where {w!r} is due ({label})", where(rb))
+    if n < 50:
+        raise AnalysisError(f"only {n} members of the block family evaluated")
+
+
 RULES = [
     ("C09.e", "containers handed out per loop iteration are fresh", 5, rule_e),
     ("C09.a", "item field agreement (parser/serialiser)", 25, rule_a),
     ("C09.b", "items immutable; rebuild re-uses originals; who may construct", 9, rule_b),
     ("C09.c", "PUSH constants rendered canonically", 3, rule_c),
     ("C09.d", "contract/document metadata preserved by copy", 6, rule_d),
+    ("C09.f", "stitching of replaced sub-blocks on a bounded block family (by evaluation): skeleton kept, real operands restored", 50, rule_f),
 ]
